@@ -3,8 +3,8 @@ replay never depends on the PRNG."""
 import random, json, copy
 
 FORMATS = ["md5", "sha1", "xxh128", "xxh3", "xxh64", "c4"]
-FILE_NAMES = ["a.txt", "b.txt", "c.bin", "d e.txt", "ü.txt", "x&y.txt", "z<1>.txt", "q'\".txt", "日本.txt", "data.tmp", "keep.bak", "A001.mov", "a001.mov", "é.txt", "é.txt", "long" + "n" * 40 + ".dat", "-.txt", "#h.txt", "[b].txt", "li\u2028ne.txt", "𝄞 clef.txt", "take\\3.mov", "100%.txt", "%s %d.bin"]
-DIR_NAMES = ["A", "AB", "a", "s", "t", "sub dir", "é", "pa\u2029ra", "Clips", "Clips_proxy", "tmp", "B", "x&y", "d.tmp", "win\\dir", "50%done", "%H%M", ".hidden"]
+FILE_NAMES = ["a.txt", "b.txt", "c.bin", "d e.txt", "ü.txt", "x&y.txt", "z<1>.txt", "q'\".txt", "日本.txt", "data.tmp", "keep.bak", "A001.mov", "a001.mov", "é.txt", "é.txt", "long" + "n" * 40 + ".dat", "-.txt", "#h.txt", "[b].txt", "li\u2028ne.txt", "𝄞 clef.txt", "take\\3.mov", "100%.txt", "%s %d.bin", "._A001.mov", "._notes"]
+DIR_NAMES = ["A", "AB", "a", "s", "t", "sub dir", "é", "pa\u2029ra", "Clips", "Clips_proxy", "tmp", "B", "x&y", "d.tmp", "win\\dir", "50%done", "%H%M", ".hidden", "._res"]
 CONTENTS = ["", "a", "b", "hello", "HELLO", "hello\n", "0", "\x00\xff", "same", "same", "x" * 100]
 PATTERNS = ["*.tmp", "*.bak", "tmp", "tmp/", "a.txt", "A", "s/", "*.mov", "d?e.txt", "[ab].txt", "Clips", "é", "data.*", "t", "s/t", "/a.txt", "A/*.txt", "s/*.bin"]
 # order matters in these: a negation re-includes what an EARLIER pattern excluded
